@@ -29,6 +29,30 @@ fn main() {
         }
         return;
     }
+    if args[1] == "c14-static-violation" && args.len() >= 3 {
+        // the C14 binary does not compile because scnr::Scanner is not Send + Sync
+        let msg = std::fs::read_to_string(&args[2]).unwrap_or_default();
+        let tier = args.get(3).cloned().unwrap_or_else(|| "quick".into());
+        let dir = Path::new(run::VERIF_DIR).join("replays").join("C14");
+        let _ = std::fs::create_dir_all(&dir);
+        let path = dir.join("static_send_sync.json");
+        let v = serde_json::json!({
+            "property": "C14", "engine": "rustc", "seed": seed, "tier": tier,
+            "case": {"modes": [], "extra": {"static": "fn f<T: Send + Sync>() {} f::<scnr::Scanner>()"}},
+            "what": "scnr::Scanner is not Send + Sync: the compile-time bound fails",
+            "kind": "c14.static", "expected": "the C14 harness compiles", "observed": msg,
+        });
+        let _ = std::fs::write(&path, serde_json::to_string_pretty(&v).unwrap());
+        let ev = serde_json::json!({
+            "property_id": "C14", "tier": if tier == "thorough" {"thorough"} else {"quick"}, "seed": seed, "level": "exploration",
+            "coverage": {"evaluations": 1, "distinct_nontrivial": 0, "rule": "static Send + Sync bound", "samples": [v["case"].clone()]},
+            "wall_s": 0.0, "violations": 1,
+        });
+        let _ = std::fs::create_dir_all(Path::new(run::VERIF_DIR).join("evidence"));
+        let _ = std::fs::write(Path::new(run::VERIF_DIR).join("evidence/C14.json"), serde_json::to_string_pretty(&ev).unwrap());
+        println!("VIOLATION property=C14 replay={}", path.display());
+        std::process::exit(1);
+    }
     if args[1] == "selftest" {
         std::process::exit(vh::selftest::run(seed));
     }
